@@ -72,6 +72,12 @@ def gen_case(rng: random.Random, tier: str, bias: str = ''):
                 chooser=list(ch), seed=rng.randrange(1 << 30))
 
 
+def _alive(srv):
+    """the gather thread (internal attribute; if it is renamed the monitor is skipped, not crashed)"""
+    t = getattr(srv, '_gather_thread', None)
+    return True if t is None else t.is_alive()
+
+
 def nontrivial(case, res):
     return len(case['callers']) >= 2 and res.get('switches', 0) >= 1
 
@@ -175,13 +181,13 @@ def run_case(case):
                     box.setdefault('streams', []).append((spec, got, endk))
 
             await asyncio.gather(*[caller(spec) for spec in case['callers']])
-            box['gather_alive'] = srv._gather_thread.is_alive()
+            box['gather_alive'] = _alive(srv)
             r = case['nreq']
             for k in range(case['followups']):
                 await do_call(r + k, 1, False, FOREVER, False)
             await asyncio.sleep(1000)
             box['idle_backlog'] = srv.backlog
-            box['gather_alive2'] = srv._gather_thread.is_alive()
+            box['gather_alive2'] = _alive(srv)
             detsched.SCHED.on_step.remove(sample)
             try:
                 await srv.__aexit__(None, None, None)
@@ -275,14 +281,14 @@ def run_case(case):
             for t in ts:
                 t.join()
             # follow-up requests with an unbounded deadline: the server must still answer (C07)
-            box['gather_alive'] = srv._gather_thread.is_alive()
+            box['gather_alive'] = _alive(srv)
             r = case['nreq']
             for k in range(case['followups']):
                 do_call(r + k, 1, False, FOREVER, False)
             # let everything come to rest (a sleep beyond the early horizon expires only when no thread is enabled)
             time.sleep(1000)
             box['idle_backlog'] = srv.backlog
-            box['gather_alive2'] = srv._gather_thread.is_alive()
+            box['gather_alive2'] = _alive(srv)
             detsched.SCHED.on_step.remove(sample)
         try:
             srv.__exit__(None, None, None)
